@@ -16,12 +16,14 @@
     against the reference semantics of C02.
 """
 import itertools
+import re
 import z3
 from common import *
 from treelib import *
 from mirsym.doc import *
 import templates as T
 import oracle as O
+from mirsym.models_std import deref_all, some
 
 TRUE = z3.BitVecVal(0, 64)
 
@@ -81,6 +83,7 @@ def main():
     for fam in ('plain', 'list', 'two', 'deep', 'index'):
         units.append(('nested', fam))
     units.append(('overrides',))
+    units.append(('delegation',))
     ck.extra['enumerated_keys'] = len(keys)
     ck.run_units(units, run_unit)
     ck.finish('Object::find MIR on symbolic keys (totality) and on enumerated keys over a symbolic object graph vs reference resolver; '
@@ -176,9 +179,73 @@ def ref_resolve(doc, key):
     return [(c, (cur[1] if cur is not None else None)) for c, cur in branches if c is not False]
 
 
+def delegation_unit(ck, prog):
+    """an `Object` used as a document (`impl Document for &dyn Object`, the blanket `impl Document for O`) answers every
+    key - plain, dotted, indexed, malformed - with what the object's own `find` answers: a user object may override `find`
+    (the trait invites it), so no key may be routed to `get` or resolved in any other way"""
+    n = 0
+    for f in prog.fns:
+        if f.kind != 'fn' or not f.name.startswith('document::<impl at ') or not f.name.endswith('::find'):
+            continue
+        uni = engine.Universe()
+        ex = ck.new_engine(prog, uni=uni, summarise=())
+        models_chars.install(ex)
+        key = S.fresh('key', 5, uni.axioms, ascii_only=True)
+        alpha = [ord(c) for c in 'ab.[]01x']
+        for b in key.bytes:
+            uni.axioms.append(z3.Or(*[b == c for c in alpha]))
+        obj = Opaque('userobj')
+        asked = []
+
+        def hook(e, callee, args, obj=obj, asked=asked):
+            if not args or deref_all(args[0]) is not obj:
+                return None
+            m = re.search(r' as (?:value::)?Object>::(\w+)$', callee)
+            if not m:
+                raise Unsupported('call on a user object: %s' % callee)
+            from mirsym.models_std import as_str as _as_str
+            k = _as_str(args[1]) if len(args) > 1 else None
+            asked.append((m.group(1), k))
+            return (some(Opaque('answer', (m.group(1), k))),)
+        ex.call_hook = hook
+        res = ex.explore(f, [Ref(Cont([Ref(Cont([obj]), 0)]), 0), StrV(key)])
+        for r in res:
+            ck.blocks |= r.blocks
+        if not coverage_complete(ck, uni, res):
+            ck.inconclusive.append('delegation: coverage')
+        bad = []
+        for r in res:
+            okv = False
+            if r.kind == 'return' and isinstance(r.value, Adt) and r.value.vname == 'Some':
+                a = r.value.items[0]
+                if isinstance(a, Opaque) and a.kind == 'answer' and a.data[0] == 'find' and a.data[1] is not None:
+                    okv = z3bool(S.s_eq(a.data[1], key))
+            bad.append(b_and(r.cond(), z3.Not(okv) if okv is not False else True))
+        n += 1
+        label = 'Object as Document delegates to Object::find (%s)' % f.name.split('>')[0].split(' at ')[-1]
+
+        def on_sat(model, f=f):
+            kb = S.model_bytes(model, key)
+            n = ck.bridge().call(cmd='delegation', key=list(kb))
+            path = ck.write_replay('delegation_' + kb.hex(), {'function': f.name, 'key': kb.decode('latin1'), 'native': n,
+                                                               'request': {'cmd': 'delegation', 'key': list(kb)},
+                                                               'what': 'the document adapter does not answer this key with the object\'s own find()'})
+            ck.replays_ok += 1
+            if n.get('dyn') != 'find' or n.get('blanket') != 'find' or 'panic' in n:
+                return ('violation', path, '%s: key %r is not answered by the object\'s find(): %r' % (label, kb, n))
+            return ('spurious', 'natively both adapters answer %r through find()' % kb)
+        ck.obligation(label, uni, b_or(*bad) if bad else False, sample={'form': label, 'paths': len(res)}, on_sat=on_sat)
+    if n == 0:
+        ck.inconclusive.append('delegation: no Document impl for objects found in document.rs')
+    ck.extra['document_adapters_for_objects'] = n
+
+
 def run_unit(ck, unit):
     kind = unit[0]
     prog = ck.program()
+    if kind == 'delegation':
+        delegation_unit(ck, prog)
+        return
     if kind.endswith('-sync'):
         # the `sync` feature compiles a second, separately written copy of the Object trait and its impls
         kind = kind[:-len('-sync')]
